@@ -406,8 +406,14 @@ where
         let symbol = match punctuation {
             Some(punctuation) => fmt_symbol!(&ctx, punctuation, ",", shape),
             None => TokenReference::symbol(",").unwrap(),
-        }
-        .update_trailing_trivia(FormatTriviaType::Append(trailing_trivia));
+        };
+        let trailing_trivia = trivia_util::join_trailing_trivia(
+            &ctx,
+            shape,
+            symbol.trailing_trivia().cloned().collect(),
+            trailing_trivia,
+        );
+        let symbol = symbol.update_trailing_trivia(FormatTriviaType::Replace(trailing_trivia));
         let formatted_punctuation = Some(symbol);
 
         fields.push(Pair::new(formatted_field, formatted_punctuation))
